@@ -1787,12 +1787,32 @@ macro_rules! vec_impl_vec {
         /// Consuming iterator over this module's vector type.
         // Can't (De)Serialize a ManuallyDrop<T>
         //#[cfg_attr(feature="serde", derive(Serialize, Deserialize))]
-        #[derive(Debug, Hash, PartialEq, Eq)]
         pub struct IntoIter<T> {
             // NOTE: Use a CVec and not $Vec; repr_simd vectors can't monomorphize ManuallyDrop<T>.
             vector: CVec<ManuallyDrop<T>>,
             start: usize,
             end: usize,
+        }
+
+        // NOTE: Be careful to only look at elements that weren't yielded: the other slots were
+        // moved out of, so these traits can't be derived.
+        impl<T: fmt::Debug> fmt::Debug for IntoIter<T> {
+            fn fmt(&self, f: &mut Formatter) -> fmt::Result {
+                write!(f, "IntoIter(")?;
+                f.debug_list().entries(self.vector[self.start .. self.end].iter().map(|elem| &**elem)).finish()?;
+                write!(f, ")")
+            }
+        }
+        impl<T: PartialEq> PartialEq for IntoIter<T> {
+            fn eq(&self, other: &Self) -> bool {
+                self.vector[self.start .. self.end] == other.vector[other.start .. other.end]
+            }
+        }
+        impl<T: Eq> Eq for IntoIter<T> {}
+        impl<T: std::hash::Hash> std::hash::Hash for IntoIter<T> {
+            fn hash<H: std::hash::Hasher>(&self, state: &mut H) {
+                self.vector[self.start .. self.end].hash(state)
+            }
         }
 
         // NOTE: Be careful to only drop elements that weren't yielded.
